@@ -46,6 +46,8 @@ def run(ctx):
         'D3 basis change is an inverse pair (*MW, /MW) followed by rescale and basis record; __call__/force_reaction always write back and restore config',
         'D4 both parsers negate left-hand-side coefficients and keep right-hand-side ones',
         'D5 with the feasibility flag on, every normal return of __call__ passed "no negatives" or "negatives zeroed"; the raise is reachable',
+        'D8 a boolean mask computed over the selection material[negative_index] is never used to index the whole material (the round-off clean-up that '
+        '__call__ and force_reaction end with must zero the negative entries, not the leading ones)',
         'D7 Reaction.copy / ReactionSet.copy, whose result copy(basis) rescales in place, copy every mutable stoichiometry container element-wise',
         'D6 every re-binding of view-wrapped molar storage (reset_chemicals for the configuration switch, phase expansion ...) drops or replaces the cached mass view that weight-basis reactions write through',
     ]
@@ -63,12 +65,30 @@ def run(ctx):
         guarded_refill_needs_empty(prog, prog.method(cname, 'reset_chemicals', rel='thermosteam/indexer.py'), d3)
     parser_rule(ctx, d4)
     feasibility_rule(ctx, d5)
+    # the configuration switch back: reset_chemicals(chemicals, container) must make the container the indexer's storage again
+    for cname in ('ChemicalIndexer', 'MaterialIndexer'):
+        g = prog.method(cname, 'reset_chemicals', rel='thermosteam/indexer.py')
+        cp = g.params[2]
+        ps_, _ = run_paths(g.node, decide=lambda t, st, cp=cp: (False if src(t) == '%s is None' % cp else True if src(t) in ('%s is not None' % cp, cp) else None))
+        ps_ = [p for p in ps_ if not p.raised]
+        okk = bool(ps_)
+        for p in ps_:
+            got = {e.target: e.value for e in p.events if e.kind == 'store' and e.target in ('self.data', 'self._data_cache')}
+            okk = okk and set(got) == {'self.data', 'self._data_cache'} and all(isinstance(v, Form) and cp in v.pretty() for v in got.values())
+        if okk:
+            d3.ok('%s.reset_chemicals' % cname, 'with a container, self.data and self._data_cache are re-bound to its two parts on every path', g)
+        else:
+            d3.fail('%s.reset_chemicals' % cname, 'container-not-attached', 'with a container the indexer does not re-bind self.data / self._data_cache to it: after the reaction '
+                    'switches the stream back to its own property package the stream keeps the reaction-ordered data', g, g.node)
     # weight-basis reactions act on the stream through its mass view: the view must wrap the data the molar flows live in
     d6 = ctx.rule('D6', 'mass views follow the molar storage (weight basis == molar basis on a stream)', floor=6)
     from .C11 import view_coherence
     view_coherence(ctx, d6)
     # copy(basis) converts the COPY in place (inverse pair of D3): it must not share a stoichiometry row with the original,
     # or the original keeps its basis label while its coefficients change
+    d8 = ctx.rule('D8', 'clean-up of round-off negatives addresses the negative entries themselves', floor=1)
+    from ..generic import selection_mask_misuse
+    selection_mask_misuse(prog, d8, rels={'thermosteam/functional.py', 'thermosteam/reaction/_reaction.py'})
     d7 = ctx.rule('D7', 'copies that are re-based in place share no stoichiometry storage with the original', floor=2)
     from .C17 import copy_sharing
     copy_sharing(ctx, d7)
@@ -420,6 +440,22 @@ def basis_rule(ctx, d3):
                 d3.fail('as_material_array[mol]', 'mol-route', 'molar basis does not react the molar data in place', f, p.ret_node)
     if found < 2:
         raise AnalysisError('as_material_array: stream branches not found')
+    # every return: (values, config, original) -- either values IS the caller's object (reacted in place, nothing to write back) or it is a
+    # fresh object and `original` names where the result must be written; a fresh object with original=None is a lost update
+    mp = f.params[0]
+    rets = [n for n in walk_no_nested(f.node) if isinstance(n, ast.Return) and isinstance(n.value, ast.Tuple) and len(n.value.elts) == 3]
+    for r in rets:
+        v, _c, o = r.value.elts
+        fresh = isinstance(v, ast.Call) and not (isinstance(v.func, ast.Attribute) and v.func.attr in ('view',))
+        inplace = not fresh
+        o_none = isinstance(o, ast.Constant) and o.value is None
+        if fresh and o_none:
+            d3.fail('as_material_array', 'copy-without-write-back', 'returns the fresh object %s with nothing to write the reacted values back to: the reaction is applied to a copy '
+                    'and the caller\'s material stays unchanged' % src(v), f, r)
+        elif inplace and not o_none:
+            d3.fail('as_material_array', 'write-back-onto-itself', 'returns %s itself together with a write-back target' % src(v), f, r)
+        else:
+            d3.ok('as_material_array', 'return %s: %s' % (src(r.value), 'reacted in place' if inplace else 'copy + write-back target'), f, r)
 
 
 # ----------------------------------------------------------------------------
